@@ -336,6 +336,17 @@ impl C20 {
         adv::set_seed(sigma);
         let re = ref_eval(&p, &inputs, &|l, x| gate_apply(l, x));
         let res = adv_eval(&to_adv(&p), inputs.clone());
+        // the two backends must agree with each other on every acyclic single-writer diagram, also where a
+        // node is read that nobody writes (its value must not come from a backend choice such as the scatter filler)
+        if re.out.is_some() && !re.multi_write {
+            let vec_run = crate::evalx::run_eval(&to_strict(&p), inputs.clone(), &|l, x| gate_apply(l, x));
+            if let (Ok(a), Ok(v)) = (&res, &vec_run.result) {
+                ctx.check(a == v, "eval/same-outcome-across-backends/value/any", || json!({"input": input(), "adv": format!("{:?}", a), "vec": format!("{:?}", v)}));
+                if re.unwritten_read {
+                    ctx.class("eval_reads_unwritten_node_across_backends");
+                }
+            }
+        }
         ctx.evaluations += 1;
         match res {
             Err(pn) => {
@@ -449,6 +460,7 @@ impl Monitor for C20 {
             ("op:predicates", 100),
             ("op:eval", 100),
             ("op:morphisms", 100),
+            ("class:eval_reads_unwritten_node_across_backends", 20),
             ("guard:backend_contract_checks", 1000),
         ];
         // the library is free to stop using a primitive (then its kind of choice point is simply never
